@@ -1,11 +1,11 @@
-SPECIFICATION TraceSpec
+SPECIFICATION Spec
 CONSTANTS
-  N = 6
+  N = 3
   Refs = {"a", "b"}
-  MaxDepth = 0
-  MaxPacks = 6
+  MaxDepth = 5
+  MaxPacks = 2
   WithCopies = TRUE
-  WithIdx = TRUE
+  WithIdx = FALSE
   MidxChecksPack = TRUE
   CgChecksStore = TRUE
   CgWriterCloses = TRUE
@@ -16,7 +16,13 @@ CONSTANTS
   DeleteDropsPacked = TRUE
   BitmapHonoursShallow = TRUE
   CgOctopusOk = TRUE
-  MaxParents = 6
+  MaxParents = 2
   CgHonoursShallow = TRUE
-  Focus = "all"
+  Focus = "bmp"
+INVARIANT TypeOK
+INVARIANT Transparent
+INVARIANT Exact
+INVARIANT RefsTransparent
+INVARIANT StaleRejected
+VIEW view
 CHECK_DEADLOCK FALSE
